@@ -605,11 +605,12 @@ class AsyncDispatcher(BaseDispatcher, Generic[ContextType]):
                         error=pjrpc.exceptions.InvalidRequestError(data="batch too large"),
                     )
                 else:
-                    responses = [
-                        resp
-                        for resp in await asyncio.gather(*(self._request_handler(req, context) for req in request))
-                        if not isinstance(resp, UnsetType)
-                    ]
+                    if self._concurrent_batch:
+                        results = await asyncio.gather(*(self._request_handler(req, context) for req in request))
+                    else:
+                        results = [await self._request_handler(req, context) for req in request]
+
+                    responses = [resp for resp in results if not isinstance(resp, UnsetType)]
                     # nothing is sent in reply to a batch of notifications (not even an empty array)
                     response = self._batch_response(*responses) if responses else UNSET
             else:
